@@ -127,20 +127,22 @@ namespace BitSerializer::Convert::Detail
 		for (; (startIt != endIt) && (*startIt == 0x20 || *startIt == 0x09); ++startIt) {}	// Skip spaces
 
 		// Skip leading zeros ("01" is the number 1, like for all other integral types)
-		for (; (endIt - startIt > 1) && *startIt == '0' && std::isdigit(startIt[1]); ++startIt) {}
+		for (; (endIt - startIt > 1) && *startIt == '0' && (startIt[1] >= '0' && startIt[1] <= '9'); ++startIt) {}
 
 		const auto size = endIt - startIt;
 		if (size >= 1)
 		{
-			if (std::isdigit(*startIt))
+			// Note: std::isdigit() is defined only for values of unsigned char, but TSym can be any UTF code unit
+			const auto isDigit = [](TSym sym) { return sym >= '0' && sym <= '9'; };
+			if (isDigit(*startIt))
 			{
-				if (*startIt == '1' && (size == 1 || !std::isdigit(startIt[1])))
+				if (*startIt == '1' && (size == 1 || !isDigit(startIt[1])))
 				{
 					ret_Val = true;
 					return;
 				}
 
-				if (*startIt == '0' && (size == 1 || !std::isdigit(startIt[1])))
+				if (*startIt == '0' && (size == 1 || !isDigit(startIt[1])))
 				{
 					ret_Val = false;
 					return;
